@@ -23,7 +23,7 @@ impl C19 {
 }
 
 const BPPS: [u16; 3] = [16, 32, 15];
-const DATA_KINDS: [&str; 12] = ["raw-exact", "raw-short", "raw-long", "rle-valid", "garbage", "rle-truncated", "raw-rows-without-padding", "rle-run-overruns-a-later-line", "rle-run-overruns-the-first-line", "rle-extreme-values", "rle-ends-after-the-first-scan-line", "rle-runs-in-the-extended-form"];
+const DATA_KINDS: [&str; 13] = ["raw-exact", "raw-short", "raw-long", "rle-valid", "garbage", "rle-truncated", "raw-rows-without-padding", "rle-run-overruns-a-later-line", "rle-run-overruns-the-first-line", "rle-extreme-values", "rle-ends-after-the-first-scan-line", "rle-runs-in-the-extended-form", "rle-fill-after-fill"];
 
 /// the data kinds of the small product (the last kind only makes sense for wide images: big cases)
 const SMALL_KINDS: u64 = 11;
@@ -70,6 +70,13 @@ fn big_cases() -> Vec<Case> {
     for iw in [32u16, 33, 255, 256, 257, 270, 271, 272, 286, 287] {
         for win in [(300usize, 260usize), (4, 4)] {
             v.push(Case { win_w: win.0, win_h: win.1, l: 0, t: 0, r: iw - 1, b: 5, img_w: iw, img_h: 6, bpp: 16, kind: 11 });
+        }
+    }
+    // background / foreground fills that end exactly with their scan line and are followed by another fill (the second one
+    // starts with a mix pixel), whole and in two halves per line
+    for iw in [2u16, 3, 4, 5, 8, 31, 32, 33, 64] {
+        for win in [(70usize, 8usize), (3, 3)] {
+            v.push(Case { win_w: win.0, win_h: win.1, l: 0, t: 0, r: iw - 1, b: 5, img_w: iw, img_h: 6, bpp: 16, kind: 12 });
         }
     }
     v
@@ -162,6 +169,37 @@ fn make_data(c: &Case) -> (Vec<u8>, bool, Option<Vec<u32>>) {
                     }
                     let same = r.len() == raw.len();
                     (r, false, if same { Some(px) } else { None })
+                }
+                // line 0 (bottom): a colour run; then fills: a background run of the whole line, another one (fill after fill: a mix
+                // pixel first), a foreground run, two half-line background runs, a background run again
+                12 => {
+                    if w * h == 0 {
+                        return (vec![], true, Some(px));
+                    }
+                    let run = w as u32;
+                    let form = |r: u32| if r < 32 { Form::Short } else { Form::MegaMega };
+                    let mut orders = vec![Order { kind: Kind::ColorRun, form: form(run), run, fg: 0, a: 0x1234, b: 0, masks: vec![], pixels: vec![] }];
+                    for line in 1..h {
+                        match line % 5 {
+                            1 | 2 | 0 => orders.push(Order::simple(Kind::BgRun, form(run), run)),
+                            3 => orders.push(Order::simple(Kind::FgRun, form(run), run)),
+                            _ => {
+                                let a = run / 2;
+                                if a > 0 {
+                                    orders.push(Order::simple(Kind::BgRun, form(a), a));
+                                }
+                                orders.push(Order::simple(Kind::BgRun, form(run - a), run - a));
+                            }
+                        }
+                    }
+                    if orders.iter().any(|o| !rle::spellable(&o.kind, &o.form, o.run)) {
+                        return (vec![0xFE], true, None);
+                    }
+                    let d = rle::emit_all(&orders);
+                    match rle::decode16(&d, w, h) {
+                        rle::Decoded::Image(i) => (d, true, Some(to_px(&rle::image16_to_bgra(&i)))),
+                        _ => (d, true, None),
+                    }
                 }
                 // six scan lines, each ONE order in the extended form: colour run, background run, (set-)foreground run, dithered
                 // run, colour run, background run; the expected image comes from the reference decoder
@@ -327,7 +365,7 @@ impl Prop for C19 {
         json!({"idx": idx, "window": [c.win_w, c.win_h], "rect": {"left": c.l, "top": c.t, "right": c.r, "bottom": c.b}, "image": [c.img_w, c.img_h], "bpp": c.bpp, "data": DATA_KINDS[c.kind]})
     }
     fn rule(&self) -> String {
-        "cases = (window WxH in 1..3 squared (1..4 in thorough), rectangle left/top/right/bottom each in {0..5, 65535} ({0..6, 32768, 65535} in thorough) (inside, outside, inverted), image width/height each in 0..5, depth in {16,32,15}, data in {raw exact, raw one byte short, raw 4 bytes long, valid RLE, garbage, RLE truncated, raw rows without their 4-byte padding (16 bpp) / half the rows (32 bpp), compressed streams whose run overruns the first / a later scan line, streams made of the extreme values of the encodings (planar deltas of -128 on every later line, mega-mega runs of 0 and 65535 pixels), an interleaved stream that ends after its first scan line}) — the full product; plus images of 2^14..2^17 pixels (256x256, 255x257, 300x250, 512x128, 181x362, 65535x1, 1x65535, 32768x2, 2x32768, 128x256, 64x64) at 16 and 32 bpp as raw exact / raw short / valid RLE / truncated RLE / unpadded rows, painted whole into a 300x260 window, at offset (1,1), clipped by a 4x4 and by a 520x2 window; plus 16 bpp images 32..287 pixels wide whose six scan lines are one extended-form order each (colour, background, set-foreground, dithered runs of the boundary lengths 32, 33, 255..257, 270..272, 286, 287). Executed on the unmodified fast_bitmap_transfer under a red-zone allocator; every worker process first paints two 64x64 images into a 300x260 window, so that anything remembered from a first call differs from what the enumeration needs. Oracle: no panic; canary zones of every heap block intact; when the call succeeds for a rectangle inside the window with a known image, the buffer equals the reference blit (rows top..bottom, columns left..right from image rows 0.., columns 0..) and every other cell keeps its sentinel; when the call fails the buffer may hold a prefix of the rows but never a foreign value; for data whose decoded image the harness does not know (garbage, truncated or overrunning streams) the paint is repeated with fresh heap blocks pre-filled with 0xA5 and with 0x3C, each time right after a one-colour image of the same size in another colour: both windows and results must be equal (the window never shows memory the decoder did not write), and equal again when two other images were painted in the same thread just before (nothing of an earlier image shows). Non-trivial: the call reached the copy loop (decompression succeeded).".into()
+        "cases = (window WxH in 1..3 squared (1..4 in thorough), rectangle left/top/right/bottom each in {0..5, 65535} ({0..6, 32768, 65535} in thorough) (inside, outside, inverted), image width/height each in 0..5, depth in {16,32,15}, data in {raw exact, raw one byte short, raw 4 bytes long, valid RLE, garbage, RLE truncated, raw rows without their 4-byte padding (16 bpp) / half the rows (32 bpp), compressed streams whose run overruns the first / a later scan line, streams made of the extreme values of the encodings (planar deltas of -128 on every later line, mega-mega runs of 0 and 65535 pixels), an interleaved stream that ends after its first scan line}) — the full product; plus images of 2^14..2^17 pixels (256x256, 255x257, 300x250, 512x128, 181x362, 65535x1, 1x65535, 32768x2, 2x32768, 128x256, 64x64) at 16 and 32 bpp as raw exact / raw short / valid RLE / truncated RLE / unpadded rows, painted whole into a 300x260 window, at offset (1,1), clipped by a 4x4 and by a 520x2 window; plus 16 bpp images 32..287 pixels wide whose six scan lines are one extended-form order each (colour, background, set-foreground, dithered runs of the boundary lengths 32, 33, 255..257, 270..272, 286, 287), and 16 bpp images 2..64 pixels wide whose scan lines are background / foreground fills ending exactly with the line and followed by another fill. Executed on the unmodified fast_bitmap_transfer under a red-zone allocator; every worker process first paints two 64x64 images into a 300x260 window, so that anything remembered from a first call differs from what the enumeration needs. Oracle: no panic; canary zones of every heap block intact; when the call succeeds for a rectangle inside the window with a known image, the buffer equals the reference blit (rows top..bottom, columns left..right from image rows 0.., columns 0..) and every other cell keeps its sentinel; when the call fails the buffer may hold a prefix of the rows but never a foreign value; for data whose decoded image the harness does not know (garbage, truncated or overrunning streams) the paint is repeated with fresh heap blocks pre-filled with 0xA5 and with 0x3C, each time right after a one-colour image of the same size in another colour: both windows and results must be equal (the window never shows memory the decoder did not write), and equal again when two other images were painted in the same thread just before (nothing of an earlier image shows). Non-trivial: the call reached the copy loop (decompression succeeded).".into()
     }
     fn assumptions(&self) -> Vec<String> {
         vec![
